@@ -13,7 +13,8 @@ RULE = ('Histories of 1-12 modifications (update on a selection, update_xyz, upd
         'the state of the Lean model (Model.step) and of the reference list-of-records model (Spec.step). Value containers: list '
         'rows, tuple rows, float64 / float32 / int64 / int32 ndarrays, NumPy scalars, NumPy str arrays. About a quarter of the '
         'steps are malformed (row count / column count mismatch, ragged value rows, unknown attribute or condition name, unknown table): they must '
-        'raise and leave the state as it was. A history is non-trivial when some step changed the table and some step was rejected or '
+        'raise and leave the state as it was. About one step in six is a QUERY (get with conditions, also on added columns) on the '
+        'same object, so that answers after earlier updates, added columns and raised exceptions are compared too. A history is non-trivial when some step changed the table and some step was rejected or '
         'a later step read cells written earlier.')
 ASSUMPTIONS = ['sqlite3 binds Python int / float / str as the values they are and stores them by column affinity as Model.storeVal says '
                '(sampled on every step)',
@@ -110,6 +111,18 @@ def gen_history(rng, n, nops):
     for _ in range(nops):
         u = rng.random()
         malformed = rng.random() < 0.25
+        if rng.random() < 0.18:
+            # a query in the middle of the history: after earlier updates / added columns / raised exceptions
+            names = COLNAMES + extras
+            cl = rng.choice(['*', 'rowID', ','.join(rng.choice(names) for _ in range(rng.randrange(1, 4)))])
+            kws = [same_type_cond(rng, trows, n, extras) for _ in range(rng.choice([0, 1, 1, 2]))]
+            if len(set(k for k, _ in kws)) < len(kws):
+                kws = kws[:1]
+            if rng.random() < 0.15:
+                kws.append((rng.choice(['foo', 'no_zz']), 1))
+            ops.append({'name': 'get', 'columns': cl, 'tn': rng.choice(['ATOM', 'atom']), 'kw': jkw(kws), 'kind': 'query',
+                        'domain': B.in_spec_domain(cl, kws, names)})
+            continue
         if u < 0.45:
             cols = rng.sample(WRITABLE + extras, rng.choice([1, 1, 2, 3]))
             kws = [same_type_cond(rng, trows, n, extras) for _ in range(rng.choice([0, 1, 1, 2]))]
@@ -242,7 +255,7 @@ def search_cases(ctx):
 
 def driver_line(c):
     d = {k: v for k, v in c.items() if k != 'family'}
-    d['ops'] = [{k: v for k, v in o.items() if k not in ('carrier', 'icarrier', 'kind')} for o in c['ops']]
+    d['ops'] = [{k: v for k, v in o.items() if k not in ('carrier', 'icarrier', 'kind', 'domain')} for o in c['ops']]
     return d
 
 
@@ -253,6 +266,8 @@ def observe(db):
 
 def apply_op(db, o):
     name = o['name']
+    if name == 'get':
+        return ('answer', db.get(o['columns'], tablename=o['tn'], **kw_py(o['kw'])))
     if name == 'update':
         vals = carry(o['carrier'], [[unjval(v) for v in r] for r in o['values']])
         return db.update(o['columns'], vals, tablename=o['tn'], **kw_py(o['kw']))
@@ -280,7 +295,8 @@ def run_history(c, cls=None):
     steps = []
     for o in c['ops']:
         r = call(lambda: apply_op(db, o))
-        steps.append({'out': r if is_err(r) else 'ok', 'db': call(lambda: observe(db))})
+        out = r if is_err(r) else canon(r[1]) if isinstance(r, tuple) and r and r[0] == 'answer' else 'ok'
+        steps.append({'out': out, 'db': call(lambda: observe(db))})
     return steps
 
 
@@ -326,6 +342,14 @@ def agree_spec(c, out, spec):
         what = f'step {k} ({c["ops"][k]["name"]}, {c["ops"][k].get("kind")})'
         if s['out'] == 'outside':
             return True
+        if s['out'] == 'answer':
+            if c['ops'][k].get('domain', True):
+                r = B.agree_answer_spec(a['out'], s['answer'])
+                if r is not True:
+                    return f'{what}: {r}'
+            if not eqv(a['db'], prev):
+                return f'{what}: a query changed the table'
+            continue
         if s['out'] == 'reject':
             if a['out'] == 'ok':
                 return f'{what}: accepted where the property demands an error'
@@ -371,7 +395,8 @@ def distribution(recs):
         for o, st in zip(c['ops'], r['impl'] if isinstance(r['impl'], list) else []):
             k = o['name'] + ':' + o.get('kind', '')
             kinds[k] = kinds.get(k, 0) + 1
-            outs[st['out']] = outs.get(st['out'], 0) + 1
+            tag = st['out'] if isinstance(st['out'], str) else 'answer'
+            outs[tag] = outs.get(tag, 0) + 1
             if 'carrier' in o:
                 carriers[o['carrier']] = carriers.get(o['carrier'], 0) + 1
     return {'history_lengths': nops, 'table_sizes': sizes, 'steps_by_kind': dict(sorted(kinds.items())), 'step_outcomes': outs,
